@@ -47,8 +47,9 @@ def seqStep (F : Funs) (s : SeqState) : BOp → SeqState
     match s.lastIf with
     | none => { s with failed := true }
     | some b =>
-      -- the else block runs iff the enclosing blocks run and the condition was false
-      { s with stack := s.stack ++ [allTrue s.stack && !b] }
+      -- the entry condition of the else block is the negation of the `if_` condition; whether the
+      -- block RUNS is `allTrue` of the whole stack (the enclosing blocks must run as well)
+      { s with stack := s.stack ++ [!b] }
   | .elseEnd =>
     match s.stack.reverse with
     | [] => { s with failed := true }
@@ -100,8 +101,10 @@ theorem flatExec_def (F : Funs) (stmts : List Stmt) : ∀ (π : List Nat) (σ : 
 /-! ### one step -/
 
 /-- names that outlive a step (`run_single_step`'s `finally`; instance attributes of the emitted class) -/
+def hasPrefix (p n : String) : Bool := p.toList.isPrefixOf n.toList
+
 def isPersistent (n : Name) : Bool :=
-  n == "<t>" || n == "<dt>" || n.startsWith "<state>" || n.startsWith "<p>"
+  n == "<t>" || n == "<dt>" || hasPrefix "<state>" n || hasPrefix "<p>" n
 
 def persist (σ : Store) : Store := fun x => bif isPersistent x then σ x else .val .none
 
